@@ -140,6 +140,15 @@ class Node:
 _ids = itertools.count()
 
 
+_PENDING_NG = []
+
+
+def _raise_ng(what):
+    def bw(g):
+        raise Inconclusive("autograd model: a gradient flows through %s, which has no backward rule" % what)
+    return bw
+
+
 class Arr:
     """common base of the Tensor and NDArray facades"""
     kind = "numpy"
@@ -153,6 +162,11 @@ class Arr:
         a = _obj(a)
         self.a = a
         self.dtype = dtype or _infer_dtype(a, self.kind)
+        if node is None and _PENDING_NG:
+            src, what = _PENDING_NG.pop()
+            del _PENDING_NG[:]
+            if self.dtype != "bool":
+                node = Node([src], _raise_ng(what))
         self.node = node
         self.requires_grad = bool(requires_grad) or node is not None
         self.id = next(_ids)
@@ -167,8 +181,10 @@ class Arr:
         return type(self)(a, dtype=dtype or self.dtype, node=Node(parents, bw) if track else None)
 
     def _nograd(self, what):
+        """this op has no backward rule in the autograd model: remember it; the result is attached to the graph by a node
+        whose backward raises, so a gradient that would have to flow through it is an Inconclusive, never a silent cut"""
         if GRAD_ENABLED[0] and self.requires_grad:
-            raise Inconclusive("autograd model: no backward rule for %s" % what)
+            _PENDING_NG.append((self, what))
 
     # ---- basic protocol
     @property
